@@ -453,6 +453,8 @@ class AppClock(Clock, metaclass=MetaAppClock):
 
     '''
 
+    _tick_pending = False  # A task was scheduled and _run wasn't waiting.
+
     def __new__(cls):
         return cls
 
@@ -469,7 +471,9 @@ class AppClock(Clock, metaclass=MetaAppClock):
             with cls._tick_cond:  # many notify one wait
                 if not cls._run_sched:
                     return
-                cls._tick_cond.wait(seconds)  # if seconds is None waits for notify
+                if not cls._tick_pending:  # else scheduled after the tick.
+                    cls._tick_cond.wait(seconds)  # if seconds is None waits for notify
+                cls._tick_pending = False
 
     @classmethod
     def clear(cls):
@@ -499,6 +503,7 @@ class AppClock(Clock, metaclass=MetaAppClock):
             with cls._sched_lock:
                 cls._scheduler.sched(delta, item)
             with cls._tick_cond:
+                cls._tick_pending = True
                 cls._tick_cond.notify()
 
     @classmethod
